@@ -573,9 +573,14 @@ class LowerToIRVisitor(Visitor.DefaultVisitor):
         elif left.Type.IsMatrix() and right.Type.IsVector():
             # M <op> V, needs to get lowered to matrix-vector multiply
             pass
-        elif left.Type.IsMatrix() and right.Type.IsScalar():
+        elif (left.Type.IsMatrix() and right.Type.IsScalar()) or (
+            left.Type.IsScalar() and right.Type.IsMatrix()
+        ):
             # M <op> S, needs to get lowered to vector-scalar multiply or
-            # division
+            # division. S * M is the same as M * S
+            if left.Type.IsScalar():
+                left, right = right, left
+
             leftType = left.Type
             leftRowType = leftType.RowType
 
